@@ -417,9 +417,22 @@ def make_msg(rng, size: int, unknown: bool) -> bytes:
     return b
 
 
-def make_segment(rng, ident: int, sizes: list[int], unknown=False, merge=False) -> bytes:
+def ref_varint_bytes(n: int) -> bytes:
+    """protobuf varint, written here so that harness-built archives do not depend on the library's encoder"""
+    out = bytearray()
+    while True:
+        b = n & 0x7F
+        n >>= 7
+        if n:
+            out.append(b | 0x80)
+        else:
+            out.append(b)
+            return bytes(out)
+
+
+def make_segment(rng, ident: int, sizes: list[int], unknown=False, merge=False, pad_versions: int = 0) -> bytes:
     from numbers_parser.generated.TSPArchiveMessages_pb2 import ArchiveInfo
-    from numbers_parser.iwafile import _VarintBytes
+    _VarintBytes = ref_varint_bytes  # noqa: N806
     h = ArchiveInfo()
     h.identifier = ident
     msgs = []
@@ -429,13 +442,45 @@ def make_segment(rng, ident: int, sizes: list[int], unknown=False, merge=False) 
         mi.type = 0 if (merge and i > 0) else 2004
         if merge and i > 0:
             mi.base_message_index = 0
-        mi.version.extend([1, 0, 5])
+        mi.version.extend([1, 0, 5] + ([1] * pad_versions if i == 0 else []))
         mi.length = len(b)
         msgs.append(b)
     if merge:
         h.should_merge = True
     hb = h.SerializeToString()
     return _VarintBytes(len(hb)) + hb + b"".join(msgs)
+
+
+def segments_by_header_length(rng, targets: set[int]) -> dict[int, bytes]:
+    """segments whose serialised ArchiveInfo header has exactly the wanted lengths (varint width boundaries)"""
+    from numbers_parser.generated.TSPArchiveMessages_pb2 import ArchiveInfo
+    found: dict[int, bytes] = {}
+    for k in sorted({1, 2, 5, 8, 9, 10, 11, 12} | {t // 12 + d for t in targets for d in range(-3, 2) if t // 12 + d > 0}):
+        for pad in range(0, 30):
+            seg = make_segment(rng, 5, [1] * k, pad_versions=pad)
+            # header length is the first varint of the segment
+            n, shift, i = 0, 0, 0
+            while True:
+                b = seg[i]
+                n |= (b & 0x7F) << shift
+                i += 1
+                shift += 7
+                if not b & 0x80:
+                    break
+            if n in targets and n not in found:
+                found[n] = seg
+        if len(found) == len(targets):
+            break
+    return found
+
+
+def frame_mixed(pieces: list[bytes], stored_mask: list[bool]) -> bytes:
+    import snappy
+    out = b""
+    for p, st in zip(pieces, stored_mask):
+        c = p if st else snappy.compress(p)
+        out += b"\x00" + struct.pack("<I", len(c))[:3] + c
+    return out
 
 
 def frame_compressed(pieces: list[bytes]) -> bytes:
@@ -496,6 +541,12 @@ def run(ctx: Ctx):
     ns |= {rng.randrange(2**rng.randrange(1, 70)) for _ in range(5000)}
     ns = sorted(n for n in ns if n >= 0)
     req, out = [], []
+    venc = getattr(IW, "_VarintBytes", None)
+    vdec = getattr(IW, "_DecodeVarint32", None)
+    if venc is None or vdec is None:
+        ctx.notes.append("iwafile no longer exposes _VarintBytes/_DecodeVarint32: varint unit cases skipped; varints are "
+                         "covered through segment encode/decode (header-length sweep) only")
+        ns = []
     for n in ns:
         req.append(f"iwa varenc {n}")
         b = IW._VarintBytes(n)
@@ -516,7 +567,7 @@ def run(ctx: Ctx):
     strs += [bytes([0x80] * k + [1]) for k in range(0, 13)] + [bytes([0xFF] * k + [0x7F]) for k in range(0, 13)]
     strs += [bytes([0x80] * k) for k in range(0, 13)]
     strs += [bytes(rng.randrange(256) for _ in range(rng.randrange(1, 14))) for _ in range(3000)]
-    for s in strs:
+    for s in (strs if vdec is not None else []):
         for pos in (0, 1, len(s)):
             req.append(f"iwa vardec {enc_bytes(s)} {pos}")
             out.append(_call(lambda: IW._DecodeVarint32(s, pos), lambda t: f"{t[0]} {t[1]}"))  # noqa: B023
@@ -759,6 +810,12 @@ def run(ctx: Ctx):
         if len(st) != target:
             st = base + make_segment(rng, 8, [pad + adj + (target - len(st))])
         synth.append((f"synthetic exact {target} ({len(st)})", st))
+    # header lengths across the 1/2-byte and 2/3-byte varint boundaries (127/128, 16383/16384)
+    targets = set(range(120, 136)) | ({16380, 16383, 16384, 16385, 16390} if not ctx.quick else {16383, 16384})
+    hl = segments_by_header_length(rng, targets)
+    ctx.extra["header_lengths_covered"] = sorted(hl)
+    for n_, seg in sorted(hl.items()):
+        synth.append((f"synthetic header length {n_}", seg + make_segment(rng, 6, [3])))
     pool = [(n, "", s, None) for n, s in synth] + rechunk_pool
     req, out = [], []
     ncuts = 0
@@ -785,10 +842,17 @@ def run(ctx: Ctx):
             cutsets.append([0, 0, n, n])      # empty pieces
         for ci, cuts in enumerate(cutsets):
             pieces = cut(stream, cuts)
-            for stored in (False, True):
-                if stored and not all(len(p) < 1 << 24 and is_stored_safe(p) for p in pieces):
+            for stored in (False, True, "mixed"):
+                if stored == "mixed":
+                    safe = [len(p) < 1 << 24 and is_stored_safe(p) for p in pieces]
+                    mask = [sf and (i % 2 == 0) for i, sf in enumerate(safe)]  # stored, compressed, stored, ...
+                    if len(pieces) < 2 or not any(mask) or all(mask):
+                        continue
+                    data = frame_mixed(pieces, mask)
+                elif stored and not all(len(p) < 1 << 24 and is_stored_safe(p) for p in pieces):
                     continue
-                data = (frame_stored if stored else frame_compressed)(pieces)
+                else:
+                    data = (frame_stored if stored else frame_compressed)(pieces)
                 if not data:
                     continue
                 inp = {**base_inp, "cuts": cuts, "stored": stored}
